@@ -1,4 +1,6 @@
 """C12 RNG failure is reported, and all drawn randomness is used."""
+import os
+
 import vlib
 from checks import common
 
@@ -10,6 +12,13 @@ def run(tier, seed):
     tr = common.api_traces(chk, bindir, "rngfaults", nsweeps=ns)
     n = common.validate_api(chk, tr, key_of=lambda e: "rng:%s:%s" % (e.get("ev", ""), e.get("fault", e.get("entry", ""))))
     rel = vlib.build_harness("release")
+    # the OS generator itself made to fail (seccomp filter on getrandom, own process): the convenience entry points must
+    # return an error too - the one generator a caller cannot replace
+    osdir = os.path.join(chk.workdir, "osrng")
+    vlib.drive(rel, "api", scenario="osrngfail", out=osdir)
+    ostr = os.path.join(osdir, "api_osrngfail_0.ndjson")
+    n += common.validate_api(chk, {"osrngfail": ostr}, key_of=lambda e: "rng:os:%s" % e.get("entry", ""))
+    chk.cov["os_rng_fault_simulated"] = not any('"Note"' in ln for ln in open(ostr))
     n2 = common.behaviours_leg(chk, rel, 120 if tier == "quick" else 2000)
     import json
     faults = set()
